@@ -194,8 +194,8 @@ impl Monitor for C04 {
         // ---- reserves: offer added in full; ask reduced by exactly what leaves the contract
         let mut res_delta: BTreeMap<(String, String), i128> = BTreeMap::new();
         for h in hops.iter() {
-            *res_delta.entry((h.pool.clone(), h.in_denom.clone())).or_insert(0) += h.in_amt as i128;
-            *res_delta.entry((h.pool.clone(), h.out_denom.clone())).or_insert(0) -= (h.out_amt + h.protocol + h.burn) as i128;
+            *res_delta.entry((h.pool.clone(), h.in_denom.clone())).or_insert(0) += si(h.in_amt);
+            *res_delta.entry((h.pool.clone(), h.out_denom.clone())).or_insert(0) -= si(h.out_amt.saturating_add(h.protocol).saturating_add(h.burn));
         }
         for p in post.pools.iter() {
             let id = &p.pool_info.pool_identifier;
@@ -204,9 +204,9 @@ impl Monitor for C04 {
                 None => return Err(viol("C04.reserves", format!("pool {id} appeared during a swap"))),
             };
             for a in p.pool_info.assets.iter() {
-                let before = reserve(q, &a.denom) as i128;
+                let before = si(reserve(q, &a.denom));
                 let want = before + res_delta.get(&(id.clone(), a.denom.clone())).copied().unwrap_or(0);
-                if a.amount.u128() as i128 != want {
+                if si(a.amount.u128()) != want {
                     return Err(viol(
                         "C04.reserves",
                         format!("pool {id} reserve of {}: {} -> {}, expected {}", a.denom, before, a.amount, want),
@@ -223,13 +223,13 @@ impl Monitor for C04 {
         let first = &hops[0];
         let last = hops.last().unwrap();
         let mut exp: BTreeMap<(String, String), i128> = BTreeMap::new();
-        add_delta(&mut exp, sender, &first.in_denom, -(first.in_amt as i128));
-        add_delta(&mut exp, &pm, &first.in_denom, first.in_amt as i128);
-        add_delta(&mut exp, &pm, &last.out_denom, -(last.out_amt as i128));
-        add_delta(&mut exp, &recv, &last.out_denom, last.out_amt as i128);
+        add_delta(&mut exp, sender, &first.in_denom, -si(first.in_amt));
+        add_delta(&mut exp, &pm, &first.in_denom, si(first.in_amt));
+        add_delta(&mut exp, &pm, &last.out_denom, -si(last.out_amt));
+        add_delta(&mut exp, &recv, &last.out_denom, si(last.out_amt));
         for h in hops.iter() {
-            add_delta(&mut exp, &pm, &h.out_denom, -((h.protocol + h.burn) as i128));
-            add_delta(&mut exp, &fc, &h.out_denom, h.protocol as i128);
+            add_delta(&mut exp, &pm, &h.out_denom, -si(h.protocol.saturating_add(h.burn)));
+            add_delta(&mut exp, &fc, &h.out_denom, si(h.protocol));
         }
         let got = deltas(&pre.bal, &post.bal);
         if got != exp {
